@@ -8,18 +8,43 @@ use cryptoxide::kdf::argon2;
 use cryptoxide::pbkdf2::pbkdf2;
 use cryptoxide::scrypt::{scrypt, ScryptParams};
 
-fn do_extract(kind: &str, salt: &[u8], ikm: &[u8], prklen: usize) -> Result<Vec<u8>, String> {
+/// the digest object handed to HKDF may have been used before: `dirty` bytes are fed to it first and, with `fin`, a result is taken
+fn soil<D: cryptoxide::digest::Digest>(mut d: D, dirty: Option<&[u8]>, fin: bool) -> D {
+    if let Some(x) = dirty {
+        d.input(x);
+        if fin {
+            let mut tmp = vec![0u8; d.output_bytes()];
+            d.result(&mut tmp);
+        }
+    }
+    d
+}
+
+fn do_extract(kind: &str, salt: &[u8], ikm: &[u8], prklen: usize, dirty: Option<&[u8]>, fin: bool) -> Result<Vec<u8>, String> {
     let (k, outlen) = split_kind(kind);
     let mut prk = vec![0xA5u8; prklen];
-    with_digest_kind!(k, outlen, d => hkdf_extract(d, salt, ikm, &mut prk));
+    with_digest_kind!(k, outlen, d => hkdf_extract(soil(d, dirty, fin), salt, ikm, &mut prk));
     Ok(prk)
 }
 
-fn do_expand(kind: &str, prk: &[u8], info: &[u8], l: usize) -> Result<Vec<u8>, String> {
+fn do_expand(kind: &str, prk: &[u8], info: &[u8], l: usize, dirty: Option<&[u8]>, fin: bool) -> Result<Vec<u8>, String> {
     let (k, outlen) = split_kind(kind);
     let mut okm = vec![0xA5u8; l];
-    with_digest_kind!(k, outlen, d => hkdf_expand(d, prk, info, &mut okm));
+    with_digest_kind!(k, outlen, d => hkdf_expand(soil(d, dirty, fin), prk, info, &mut okm));
     Ok(okm)
+}
+
+/// the same Hmac object drives two derivations in a row (it is handed in by reference and left reset)
+fn do_pbkdf2_twice(kind: &str, pw: &[u8], salt1: &[u8], salt2: &[u8], c: u32, dklen: usize) -> Result<Vec<u8>, String> {
+    let (k, outlen) = split_kind(kind);
+    let mut out = vec![0xA5u8; 2 * dklen];
+    with_digest_kind!(k, outlen, d => {
+        let mut mac = Hmac::new(d, pw);
+        let (a, b) = out.split_at_mut(dklen);
+        pbkdf2(&mut mac, salt1, c, a);
+        pbkdf2(&mut mac, salt2, c, b)
+    });
+    Ok(out)
 }
 
 fn do_pbkdf2(kind: &str, pw: &[u8], salt: &[u8], c: u32, dklen: usize) -> Result<Vec<u8>, String> {
@@ -68,14 +93,16 @@ pub fn dispatch(_m: &mut Machine, name: &str, args: &[&str]) -> Option<R> {
             need(args, 3)?;
             let salt = arg_bytes(args[1])?;
             let ikm = arg_bytes(args[2])?;
-            let prklen = if args.len() > 3 { arg_usize(args[3])? } else { usize::MAX };
+            let prklen = if args.len() > 3 && args[3] != "-" { arg_usize(args[3])? } else { usize::MAX };
             let prklen = if prklen == usize::MAX {
                 let (k, outlen) = split_kind(args[0]);
                 crate::ops_mac::new_digest(k, &[&format!("{}", outlen)])?.output_bytes()
             } else {
                 prklen
             };
-            Ok(obs_bytes(&do_extract(args[0], &salt, &ikm, prklen)?))
+            let dirty = if args.len() > 4 { Some(arg_bytes(args[4])?) } else { None };
+            let fin = args.len() > 5 && args[5] == "fin";
+            Ok(obs_bytes(&do_extract(args[0], &salt, &ikm, prklen, dirty.as_deref(), fin)?))
         })(),
         // hkdf_expand <digest> <prk> <info> <L>
         "hkdf_expand" => (|| {
@@ -83,7 +110,19 @@ pub fn dispatch(_m: &mut Machine, name: &str, args: &[&str]) -> Option<R> {
             let prk = arg_bytes(args[1])?;
             let info = arg_bytes(args[2])?;
             let l = arg_usize(args[3])?;
-            Ok(obs_bytes(&do_expand(args[0], &prk, &info, l)?))
+            let dirty = if args.len() > 4 { Some(arg_bytes(args[4])?) } else { None };
+            let fin = args.len() > 5 && args[5] == "fin";
+            Ok(obs_bytes(&do_expand(args[0], &prk, &info, l, dirty.as_deref(), fin)?))
+        })(),
+        // pbkdf2_twice <digest> <password> <salt1> <salt2> <c> <dklen>
+        "pbkdf2_twice" => (|| {
+            need(args, 6)?;
+            let pw = arg_bytes(args[1])?;
+            let s1 = arg_bytes(args[2])?;
+            let s2 = arg_bytes(args[3])?;
+            let c = arg_u64(args[4])? as u32;
+            let dklen = arg_usize(args[5])?;
+            Ok(obs_bytes(&do_pbkdf2_twice(args[0], &pw, &s1, &s2, c, dklen)?))
         })(),
         // pbkdf2 <digest> <password> <salt> <c> <dklen>
         "pbkdf2" => (|| {
@@ -143,6 +182,42 @@ pub fn dispatch(_m: &mut Machine, name: &str, args: &[&str]) -> Option<R> {
                 argon2::argon2_at(&params, &pw, &salt, &key, &aad, &mut tag);
                 tag
             };
+            Ok(obs_bytes(&tag))
+        })(),
+        // argon2_built <d|i|id> <setter list: p3,m24,t2,v19,...> <pw> <salt> <key> <aad> <taglen>
+        // the parameter object is built by calling the public setters in exactly the listed order
+        "argon2_built" => (|| {
+            need(args, 7)?;
+            let mut params = match args[0] {
+                "d" => argon2::Params::argon2d(),
+                "i" => argon2::Params::argon2i(),
+                "id" => argon2::Params::argon2id(),
+                _ => return Err("bad-argon2-type".into()),
+            };
+            for tok in args[1].split(',') {
+                if tok.is_empty() || tok == "-" {
+                    continue;
+                }
+                let v: u32 = tok[1..].parse().map_err(|_| "bad-setter-value".to_string())?;
+                let r = match &tok[..1] {
+                    "p" => params.parallelism(v),
+                    "m" => params.memory_kb(v),
+                    "t" => params.iterations(v),
+                    "v" => params.version(v),
+                    _ => return Err("bad-setter".into()),
+                };
+                params = match r {
+                    Ok(p) => p,
+                    Err(e) => return Ok(format!("ERR:{:?}", e)),
+                };
+            }
+            let pw = arg_bytes(args[2])?;
+            let salt = arg_bytes(args[3])?;
+            let key = arg_bytes(args[4])?;
+            let aad = arg_bytes(args[5])?;
+            let taglen = arg_usize(args[6])?;
+            let mut tag = vec![0xA5u8; taglen];
+            argon2::argon2_at(&params, &pw, &salt, &key, &aad, &mut tag);
             Ok(obs_bytes(&tag))
         })(),
         // argon2_setter <parallelism|iterations|version|memory_kb> <value>
